@@ -18,7 +18,9 @@ TNext ==
        \/ e.a = "complete" /\ CompleteOk(s, e.c, e.t) /\ s' = Complete(s, e.c)
        \/ e.a = "probe" /\ ProbeOk(s, e.res, e.wrote) /\ UNCHANGED s
        \/ e.a = "raised" /\ FALSE                                  \* nothing may escape a protocol callback
-       \/ e.a = "end" /\ EndOk(s, e.pending, e.running) /\ UNCHANGED s
+       \* scanwait = 1: a list operation (scan) whose command had been answered goes on waiting for its completion callback - it has no timeout
+       \* of its own (C17) and is not a command call in progress; it is taken out before the end clause is evaluated
+       \/ e.a = "end" /\ EndOk(IF e.scanwait = 1 THEN Complete(s, 1) ELSE s, e.pending, e.running) /\ UNCHANGED s
   /\ l' = l + 1 /\ UNCHANGED tid
 TSpec == TInit /\ [][TNext]_tvars
 Progress == TLCSet(1, [TLCGet(1) EXCEPT ![tid] = IF @ < l THEN l ELSE @])
